@@ -179,6 +179,9 @@ def run(cx: Cx):
         cx.ok('R-GUARD', 'get_agents: fresh list, joining order, has_component(*args) template filter, tag filter iff tag is not None',
               where=cx.where(ga), function=ga.qualname, paths=n)
     check_pure(cx, ga.qualname)
+    from .common import check_overrides_forward
+    check_overrides_forward(cx, ENVQ, ['get_agents', 'get_random_agent', 'shuffle'])
+    check_overrides_forward(cx, CORE + 'Agent', ['has_component'])
     from .common import check_result_fresh
     check_result_fresh(cx, ga.qualname)
 
